@@ -226,6 +226,9 @@ func run(c *vh.Ctx) error {
 	if err != nil {
 		return err
 	}
+	// vh.NewRng streams of adjacent seeds are shifts of each other; derive a
+	// decorrelated stream so that seeds really give different walks
+	c.Rng = c.Rng.Fork().Fork()
 	cf := c.NewCaseFile("c16", header)
 	cf.SetShardSize(c.Pick(250, 600))
 
@@ -319,7 +322,7 @@ Print M.
 	return nil
 }
 
-var rowRe = regexp.MustCompile(`\("([a-z0-9_]+)",\s*(true|false),\s*(\[[^\]]*\]|nil),\s*(true|false),\s*(true|false),\s*(\d+)(?:%N)?,\s*(\d+)(?:%N)?\)`)
+var rowRe = regexp.MustCompile(`\("([a-z0-9_]+)"(?:%string)?,\s*(true|false),\s*(\[[^\]]*\]|nil),\s*(true|false),\s*(true|false),\s*(\d+)(?:%N)?,\s*(\d+)(?:%N)?\)`)
 var pairRe = regexp.MustCompile(`\((\d+)(?:%N)?,\s*(\d+)(?:%N)?\)`)
 
 func post(c *vh.Ctx) error {
